@@ -267,7 +267,7 @@ func cmdCheck(args []string) int {
 	if *tier == "quick" {
 		var retry []*Obl
 		for _, o := range obls {
-			if (o.Status == "unknown" || o.Status == "timeout") && baseline[o.Name] && !o.ExpectSat {
+			if (o.Status == "unknown" || o.Status == "timeout") && !o.ExpectSat && (baseline[o.Name] || o.Kind == "assert" || o.Kind == "always") {
 				retry = append(retry, o)
 			}
 		}
